@@ -317,7 +317,8 @@ FACETS = [
         check=check_builtin,
         strategy=builtin_cases,
         rule=("L2Cost/GaussianVarCost/GaussianCovCost and a user-defined L1Cost on structured data (shifts, spikes, bumps; exact and float), "
-              "msl from the cost's minimum size, n from 2msl, penalty scales incl. 0; "
+              "msl from the cost's minimum size, n from 2msl, penalty scales incl. 0; the detector may have a past (cost object pre-fitted on wider data; "
+              "earlier predict on the caller's array / frame, then refilled in place); "
               "non-trivial = >=1 changepoint AND the evaluated cost table satisfies the split inequality"),
         n_quick=480, n_thorough=8000, shards_quick=8, shards_thorough=16,
     ),
